@@ -17,3 +17,4 @@ OBLIGATIONS = ([K.WIG_SECTION_W] + K.WRITER_LAYOUT + K.SPANS + [K.WIG_FLUSH, K.W
                K.IDMAP, K.INDEX_PAIRS] + K.READER_COMMON + K.CIR_READER + [K.WIG_BLOCK_R, K.WIG_KEEP, K.QUERY_ARGS, K.OVERLAPS, K.WIG_GUARDS])
 OBLIGATIONS = OBLIGATIONS + [K.BLOCK_DATA, K.SEARCH_ORDER, K.INTERVAL_SIBS]
 OBLIGATIONS = OBLIGATIONS + [K.TREE_OFFSETS]
+OBLIGATIONS = OBLIGATIONS + [K.EVERY_VALUE]
